@@ -266,6 +266,35 @@ def string_equality(ctx, P, rule="STR-EQUAL", floor=5):
                                                "memcmp over `%s` bytes, one of the lengths tested equal" % ln if okl else
                                                "memcmp compares `%s` bytes although the lengths tested equal are `%s` and `%s`: an "
                                                "unrelated length matches by prefix or reads past the shorter string" % (ln, l, r))
+    # every variable-length memcmp used as an equality test of allele / state strings is conjoined with an equality of the two
+    # lengths (a bare memcmp over one string's length matches prefixes, and the empty string matches everything)
+    for key in ("trees", "genotypes", "stats"):
+        tu = P.tus[key]
+        for fn in tu.funcs.values():
+            if fn.body is None or fn.name.endswith("_equals"):
+                continue
+            par = {}
+            for x in walk(fn.body):
+                for c in x.kids:
+                    if c is not None:
+                        par[id(c)] = x
+            k = 0
+            for x in walk(fn.body):
+                if x.k == "CallExpr" and callee(x) in ("tsk_memcmp", "memcmp", "strncmp") and len(x.kids) > 3:
+                    ln = estr(x.kids[3])
+                    if re.search(r"sizeof|strlen|^[A-Z_]+$", ln) and not re.search(r"length|_len", ln):
+                        continue
+                    cur, p = x, par.get(id(x))
+                    while p is not None and (p.k in ("ParenExpr", "ImplicitCastExpr", "UnaryOperator") or
+                                             (p.k == "BinaryOperator" and p.op in ("&&", "==", "!="))):
+                        cur, p = p, par.get(id(p))
+                    haslen = any(b.k == "BinaryOperator" and b.op == "==" and re.search(r"length|_len\b|lengths\[", estr(b.kids[0]))
+                                 and re.search(r"length|_len\b|lengths\[", estr(b.kids[1])) for b in walk(cur))
+                    n += 1
+                    ctx.ob(rule, "%s|conjoined@%d" % (fn.name, k), haslen, tu.loc(x),
+                           "memcmp over `%s` is conjoined with an equality of lengths" % ln if haslen else
+                           "`%s` compares %s bytes without requiring the two lengths to be equal: a prefix (or the empty string) matches" % (estr(cur)[:70], ln))
+                    k += 1
     ctx.floor(rule, floor)
 
 
